@@ -740,6 +740,7 @@ def protected_join(func, call):
 
 
 VARIANTS = [
+    M('R2', 'cflib/crazyflie/param.py', "        try:\n            self.wait_lock.release()\n        except RuntimeError:\n            pass\n\n    def request_param_setvalue", "        if self._lock_pattern is not None:\n            self.wait_lock.release()\n\n    def request_param_setvalue", 'forced release of the wait lock outside try'),
     M('R8', LS, "            if self._ping_thread_instance is not current_thread():", "            if self._ping_thread is not current_thread():", 'self-join guard compares the bound method'),
     M('R11', 'cflib/crazyflie/toc.py', "                if (self.nbr_of_items > 0):", "                if (self.nbr_of_items > 1):", 'one-entry table treated as empty'),
     M('R4', CF, "            self.commander.send_setpoint(0, 0, 0, 0)\n        link = self.link\n        if (link is not None):\n            link.close()", "            link = self.link\n            self.commander.send_setpoint(0, 0, 0, 0)\n            link.close()", 'link not re-read after the zero setpoint'),
